@@ -179,6 +179,16 @@ def cut_timeouts(cmds, limit=4):
     return out
 
 
+def with_distractor(cmds, rng):
+    out = list(cmds)
+    i = rng.randrange(len(out) + 1)
+    out.insert(i, "start:2")
+    if rng.random() < 0.8:
+        j = rng.randrange(i + 1, len(out) + 1)
+        out.insert(j, "end:2:" + rng.choice(["normal", "error", "panic"]))
+    return out
+
+
 def mk_case(cid, cmds, rng, nd, watch, group):
     stalls = any(c.startswith("timeout") for c in cmds)
     return {"id": cid, "mode": "gated", "nd": nd, "na": 2, "watch": watch, "iv": rng.choice([4, 8, 15]),
@@ -223,14 +233,16 @@ def run(chk):
             f.write(open(os.path.join(w, "MCFDBroken.cfg.in")).read().replace("@V@", variant))
         return V.tlc(w, "MCFD", cfg="MCFDBroken.cfg", deadlock=False, workers=2, timeout=900)
 
-    # 1. design level (runs while the driver works)
-    design = {}
-    if not chk.replay:
+    # 1. design level: started once the generator has delivered (it then overlaps with the driver and the folds)
+    design, broken = {}, {}
+
+    def start_design():
         design["MCFD1"] = pool.submit(tlc_job, "mcfd1", "MCFD", "MCFD1.cfg", workers=4, timeout=1200)
         if not quick:
             design["MCFD"] = pool.submit(tlc_job, "mcfd", "MCFD", "MCFD.cfg", workers=8, timeout=2400, heap="6g")
-            design["MCFD2a"] = pool.submit(tlc_job, "mcfd2a", "MCFD", "MCFD2a.cfg", workers=6, timeout=2400, heap="6g")
-        broken = {v: pool.submit(broken_job, v) for v in (VARIANTS_QUICK if quick else VARIANTS_ALL)}
+            design["MCFD2a"] = pool.submit(tlc_job, "mcfd2a", "MCFD", "MCFD2a.cfg", workers=4, timeout=2400, heap="4g")
+        for v in (VARIANTS_QUICK if quick else VARIANTS_ALL):
+            broken[v] = pool.submit(broken_job, v)
 
     # 2. generator graphs -> cases
     cases = []
@@ -241,9 +253,7 @@ def run(chk):
     else:
         gens = {"gen1": pool.submit(tlc_job, "gen1", "MCFDGen", "MCFDGen1.cfg", workers=1, timeout=900, dump="gen.dot")}
         sims = {}
-        if quick:
-            sims["1"] = pool.submit(sim_walks, work, "MCFDGen.cfg", 40, 45, chk.seed)
-        else:
+        if not quick:
             gens["gen"] = pool.submit(tlc_job, "gen", "MCFDGen", "MCFDGen.cfg", workers=1, timeout=1500, dump="gen.dot")
             for g in ("2a", "2b"):
                 sims[g] = pool.submit(sim_walks, work, "MCFDGen%s.cfg" % g, 150, 50, chk.seed)
@@ -259,6 +269,14 @@ def run(chk):
             rw = random_walks(init, out, rng, (10 if quick else 60) if name == "gen1" else 250)
             graph_note[name] = {"base_states": len(out), "command_edges": nedges, "cover_walks": len(cw), "random_walks": len(rw)}
             walks += [(c, 1, [1], "1") for c in cw + rw]
+            if name == "gen1":
+                # a second archetype on the same monitor that the detector does not watch starts / ends at
+                # arbitrary points (commands of archetype 2 are independent of everything else in FD.tla;
+                # FDTrace checks that each schedule is a behaviour of the two-archetype model)
+                dw = [with_distractor(c, rng) for c in rng.sample(cw, min(len(cw), 60 if quick else 200))]
+                graph_note[name]["with_distractor_archetype"] = len(dw)
+                walks += [(c, 1, [1], "1") for c in dw]
+        start_design()
         for g, fut in sims.items():
             res, ws = fut.result()
             chk.add_tlc("MCFDGen%s simulation (generator: random behaviours of the harness commands)" % ("" if g == "1" else g), res)
@@ -355,7 +373,8 @@ def run(chk):
         cfg = "1" if g == "cr" else g       # the close-race probe is folded on its own (three lines)
         chunks = 1 if (quick or len(gs) < 200) else 4
         folds[g] = (gs, pool.submit(V.fold_traces, work, "FDObs", "FDObs_%s.cfg" % cfg, gs, timeout=1500, chunks=chunks, max_rounds=8),
-                    pool.submit(V.fold_traces, work, "FDTrace", "FDTrace_%s.cfg" % cfg, gs, timeout=1500, chunks=chunks, max_rounds=8))
+                    pool.submit(V.fold_traces, work, "FDTrace", "FDTrace_%s.cfg" % cfg, gs, timeout=1500, chunks=chunks, max_rounds=8)
+                    if g != "cr" else None)
     for g, (gs, fobs, fmt) in folds.items():
         obs = fobs.result()
         chk.states += obs["states"]; chk.transitions += obs["transitions"]
@@ -387,6 +406,8 @@ def run(chk):
                           "the real detector violates %s in case %s at event %d (%s): %s" % (
                               part, seg[0]["id"], r["line_in_seg"], json.dumps(ev), r["text"]),
                           {"spec": byid[seg[0]["id"]], "segment": seg, "line_in_seg": r["line_in_seg"], "tlc": r["text"]})
+        if fmt is None:
+            continue
         mt = fmt.result()
         chk.states += mt["states"]; chk.transitions += mt["transitions"]
         chk.notes["m_level_accepted_group_" + g] = mt["accepted"]
